@@ -28,6 +28,7 @@ LEAN_TY = {
     "str": "String", "ver": "Ver", "bool": "Bool", "unit": "Unit", "nat": "Nat", "key": "Key", "val": "Val",
     "stored": "Stored", "pkgmeta": "PkgMeta", "plugins_c": "List SRef", "sinfo": "SInfo", "epname": "EpName",
     "handle": "Handle", "skey": "String × Option Ver", "value": "Bool × String", "tok": "String",
+    "parsed": "SRef × String",
 }
 PATHLIKE = ("path", "node", "group", "dataset")
 
@@ -176,19 +177,19 @@ class Spec:
     definition), type hints for locals whose type cannot be inferred"""
 
     def __init__(self, src, cls, name, kind, params, ret, callees=(), env=False, hints=None, mutself=False,
-                 selfty=None, lean=None, static=False):
+                 selfty=None, lean=None, static=False, ctor=False):
         self.src, self.cls, self.name, self.kind, self.params, self.ret = src, cls, name, kind, list(params), ret
         self.callees, self.env, self.hints, self.mutself, self.selfty = list(callees), env, hints or {}, mutself, selfty
-        self.static = static
+        self.static, self.ctor = static, ctor
         self.qual = (cls + "." + name) if cls else name
         self.lean = lean or self.qual
 
     def fn_type(self):
         """Lean type of this function when passed as a callee parameter"""
         ps = []
-        if self.selfty:
+        if self.selfty and not self.ctor:
             ps.append(lty(self.selfty))
-        ps += [lty(p) for p in self.params]
+        ps += [lty(p) for p in self.params if p is not None]
         r = lty(self.selfty) if self.mutself else lty(self.ret)
         if self.kind != "pure":
             r = "M (%s)" % r
@@ -236,11 +237,34 @@ spec(IFACE, "TOCLinks", "update", "M", ["uuid", "path"], "unit")
 spec(IFACE, "TOCLinks", "register", "M", ["stored"], "unit", callees=["TOCSchemas._register"])
 spec(IFACE, "TOCLinks", "unregister", "M", ["uuid"], "unit", callees=["TOCSchemas._unregister"],
      hints={"s_name_vers": "epname"})
-spec(IFACE, "TOCLinks", "find_broken", "M", ["bool"], ("list", "uuid"),
-     callees=["TOCLinks.resolve", "TOCLinks.unregister"])
-spec(IFACE, "TOCLinks", "find_missing", "M", ["group"], ("list", "dataset"), callees=["TOCLinks.resolve"])
+spec(IFACE, "TOCLinks", "find_missing", "M", ["group"], ("list", "dataset"), callees=["TOCLinks.resolve"],
+     hints={"missing": ("list", "dataset")})
 spec(IFACE, "TOCLinks", "repair_missing", "M", [("list", "dataset"), "bool"], "unit",
      callees=["TOCLinks.update", "TOCLinks.fresh_uuid", "TOCLinks.register"])
+
+
+# ------------------------------------------------------------------ MetadorMeta (self = the model's Handle)
+spec(IFACE, "MetadorMeta", "_require_schema", "M", ["str", ("opt", "ver")], "sinfo", env=True, static=True)
+spec(IFACE, "MetadorMeta", "_get_raw", "pure", ["str", ("opt", "ver")], ("opt", "stored"), selfty="handle")
+spec(IFACE, "MetadorMeta", "_set_raw", "M", ["sref", "tok"], "unit", selfty="handle", mutself=True,
+     callees=["TOCLinks.fresh_uuid", "TOCLinks.register"])
+spec(IFACE, "MetadorMeta", "_del_raw", "M", ["str", "bool"], "unit", selfty="handle", mutself=True,
+     callees=["TOCLinks.unregister"])
+spec(IFACE, "MetadorMeta", "_destroy", "M", ["bool"], "unit", selfty="handle", mutself=True,
+     callees=["MetadorMeta._del_raw"])
+spec(IFACE, "MetadorMeta", "__init__", "M", ["node"], "unit", selfty="handle", mutself=True, ctor=True)
+spec(IFACE, "MetadorMeta", "query", "M", ["skey", ("opt", "ver")], ("list", "sref"), selfty="handle",
+     callees=["TOCSchemas.children", "TOCSchemas.versions"])
+spec(IFACE, "MetadorMeta", "__contains__", "M", ["skey"], "bool", selfty="handle", callees=["MetadorMeta.query"])
+spec(IFACE, "MetadorMeta", "get", "M", ["skey", ("opt", "ver")], ("opt", "parsed"), selfty="handle",
+     callees=["MetadorMeta.query", "MetadorMeta._require_schema"])
+spec(IFACE, "MetadorMeta", "__setitem__", "M", ["skey", "value"], "unit", selfty="handle", mutself=True,
+     callees=["MetadorMeta._require_schema", "MetadorMeta._set_raw"])
+spec(IFACE, "MetadorMeta", "__delitem__", "M", ["skey"], "unit", selfty="handle", mutself=True,
+     callees=["MetadorMeta._del_raw"])
+for _q in ("TOCLinks.resolve", "TOCSchemas.children", "TOCSchemas.versions", "TOCSchemas.parent_path", "MetadorMeta.query",
+           "MetadorMeta._require_schema", "MetadorMeta.get", "MetadorMeta.__contains__"):
+    SPECS[_q].ro = True
 
 
 # ----------------------------------------------------------------------------- source access
@@ -393,8 +417,8 @@ def is_docstring(st):
 
 
 class Level:
-    def __init__(self, fall, cont=None, ret=None):
-        self.fall, self.cont, self.ret = fall, cont, ret
+    def __init__(self, fall, cont=None, ret=None, needs=()):
+        self.fall, self.cont, self.ret, self.needs = fall, cont, ret, set(needs)
 
 
 class Blk:
@@ -491,7 +515,7 @@ class Fn:
             ps.append("(e : Env)")
         for c in sp.callees:
             ps.append("(%s : %s)" % (callee_param(c), SPECS[c].fn_type()))
-        if sp.selfty:
+        if sp.selfty and not sp.ctor:
             ps.append("(self_ : %s)" % lty(sp.selfty))
         for n, t in zip(self.pnames, sp.params):
             if t is not None:
@@ -506,6 +530,8 @@ class Fn:
         body = strip_doc(self.fdef.body)
         pure = sp.kind == "pure"
         b = Blk(self, self.env0, 2, pure=pure)
+        if sp.ctor and sp.selfty == "handle":
+            b.emit("let self_ : Handle := ⟨[], []⟩")
         if self.is_gen:
             b.emit("let acc__ : %s := []" % lty(sp.ret))
             b.env["acc__"] = Var("acc__", sp.ret)
@@ -629,17 +655,18 @@ class Fn:
         return "if", c, None, [(b.sub(4), st.body), (b.sub(4), st.orelse)]
 
     def emit_branches(self, b, kind, head, nm, subs, prefix=""):
+        do = "" if b.pure else " do"
         if kind == "match":
             b.emit("%s(match %s with" % (prefix, head))
-            b.emit("  | none => do")
+            b.emit("  | none =>" + do)
             b.take(subs[0][0])
-            b.emit("  | some %s => do" % nm)
+            b.emit("  | some %s =>%s" % (nm, do))
             b.take(subs[1][0])
             b.lines[-1] += ")"
         else:
-            b.emit("%s(if %s then do" % (prefix, head))
+            b.emit("%s(if %s then%s" % (prefix, head, do))
             b.take(subs[0][0])
-            b.emit("  else do")
+            b.emit("  else" + do)
             b.take(subs[1][0])
             b.lines[-1] += ")"
         b.snap = False
@@ -656,7 +683,7 @@ class Fn:
         kind, head, nm, subs = self.branches(b, st)
         # what the branches re-bind and what is needed afterwards
         asg = [n for n in assigned_names(st.body + st.orelse)]
-        later = used_names(rest) | {"acc__", self.selfname or "self"}
+        later = used_names(rest) | {"acc__", self.selfname or "self"} | lvl.needs
         live = []
         for n in asg:
             key = "self_" if n == self.selfname else n
@@ -679,7 +706,7 @@ class Fn:
             self.final(sb, "()" if not vals else (vals[0].lean if len(vals) == 1 else "(%s)" % ", ".join(v.lean for v in vals)))
 
         for sb, body in subs:
-            self.block(sb, body, Level(fall=fall))
+            self.block(sb, body, Level(fall=fall, needs=lvl.needs))
         if not live:
             self.emit_branches(b, kind, head, nm, subs)
             return
@@ -786,7 +813,13 @@ class Fn2(Fn):
 
     def set_local(self, b, name, x, node=None):
         ln = lname(name)
-        b.emit("let %s := %s" % (ln, x.lean))
+        if isinstance(x.ty, tuple) and None in x.ty:
+            b.env[name] = Var(x.lean, x.ty)  # `x: Optional[T] = None` that is assigned again before use
+            return
+        if x.lean in ("[]", "none"):
+            b.emit("let %s : %s := %s" % (ln, lty(x.ty), x.lean))
+        else:
+            b.emit("let %s := %s" % (ln, x.lean))
         b.env[name] = Var(ln, x.ty, alias=x.alias)
 
     # --- simple statements ------------------------------------------------
@@ -847,13 +880,21 @@ class Fn2(Fn):
             if d is None:
                 raise self.err("assignment to an attribute outside the dictionary", st)
             if d[0] in ("raw", "obj"):
-                if isinstance(value, ast.Name) and value.id in self.wiring:
+                if isinstance(value, ast.Name) and (value.id in self.wiring or value.id in self.pnames):
                     return  # object wiring: `self._raw = raw_cont`
+                if isinstance(value, ast.Attribute) and isinstance(value.value, ast.Name) and value.value.id in self.pnames:
+                    return  # `self._mc = node._self_container`
                 raise self.err("object attribute is not initialised from the constructor parameter", st)
             if d[0] == "field":
                 x = self.ex(b, value, want=d[2])
                 x = self.coerce(b, x, d[2], value)
                 return self.write_field(b, d[1], x.lean)
+            if d[0] == "hfield":
+                self.need_mutself(st)
+                x = self.ex(b, value, want=d[2])
+                x = self.coerce(b, x, d[2], value)
+                b.emit("let self_ : Handle := { self_ with %s := %s }" % (d[1], x.lean))
+                return
             raise self.err("assignment to self.%s" % t.attr, st)
         # obj.uuid = ..., obj.node = ...  on a local StoredMetadata
         if isinstance(t, ast.Attribute) and isinstance(t.value, ast.Name) and t.value.id in b.env \
@@ -955,6 +996,8 @@ class Fn2(Fn):
     # --- calls used as statements ------------------------------------------------
     def call_stmt(self, b, call, st):
         f = call.func
+        if isinstance(f, ast.Attribute) and f.attr == "visititems" and len(call.args) == 1 and not call.keywords:
+            return self.visititems_stmt(b, call, st)
         if isinstance(f, ast.Attribute) and f.attr in MUTATORS and len(call.args) == 1 and not call.keywords:
             return self.mutate(b, f.value, f.attr, call.args[0], st)
         x = self.ex(b, call)
@@ -1021,6 +1064,54 @@ class Fn2(Fn):
             return "%s ++ [%s]" % (cur, a.lean)
         raise self.err("'%s' on a %s" % (op, ty[0]), st)
 
+    def visit_nodes(self, b, grp, st):
+        """(lean list of the nodes visited, type of a node) for `grp.visititems`"""
+        if grp.ty in ("group", "node"):
+            b.state()
+            return "(visitNodes s.raw %s)" % paren(grp.lean), "node"
+        raise self.err("visititems on a %s" % (grp.ty,), st)
+
+    def visititems_stmt(self, b, call, st):
+        """`grp.visititems(callback)` with a local callback that appends to a local list"""
+        fnarg = call.args[0]
+        if not (isinstance(fnarg, ast.Name) and fnarg.id in b.env and isinstance(b.env[fnarg.id].ty, tuple)
+                and b.env[fnarg.id].ty[0] == "localfn"):
+            raise self.err("visititems callback is not a local function", st)
+        fd = b.env[fnarg.id].ty[1]
+        if len(fd.args.args) != 2 or fd.args.vararg or fd.args.kwarg or fd.args.kwonlyargs or fd.args.defaults:
+            raise self.err("visititems callback must take (name, node)", st)
+        grp = self.ex(b, call.func.value)
+        nodes, nty = self.visit_nodes(b, grp, st)
+        body = strip_doc(fd.body)
+        pnames = [a.arg for a in fd.args.args]
+        if pnames[0] in used_names(body):
+            raise self.err("the visititems callback uses the relative name", st)
+        accs = [n for n in assigned_names(body) if n in b.env and n not in pnames and b.env[n].lean is not None]
+        if len(accs) != 1:
+            raise self.err("the visititems callback must update exactly one local list (found: %s)" % ", ".join(accs), st)
+        acc = accs[0]
+        accl = b.env[acc].lean
+        nl = lname(pnames[1])
+        sb = b.sub(4)
+        sb.snap = False
+        sb.env[pnames[1]] = Var(nl, nty)
+        sb.env.pop(pnames[0], None)
+
+        def done(x):
+            self.final(x, accl)
+
+        def ret(x, value):
+            if value is not None and not is_none(value):
+                raise self.err("a visititems callback that returns a value stops the traversal: not supported", st)
+            self.final(x, accl)
+
+        self.block(sb, body, Level(fall=done, ret=ret, needs=[acc]))
+        b.emit("let %s ← pyFoldM %s %s (fun %s %s => do" % (accl, nodes, accl, accl, nl))
+        b.take(sb)
+        b.lines[-1] += ")"
+        b.snap = False
+        b.stale_aliases()
+
     # --- loops ------------------------------------------------
     def loop(self, b, st, rest, lvl):
         if st.orelse:
@@ -1080,7 +1171,7 @@ class Fn2(Fn):
         def done(x):
             self.final(x, accl)
 
-        self.block(sb, body, Level(fall=done, cont=done))
+        self.block(sb, body, Level(fall=done, cont=done, needs=[] if acc == "__self__" else [acc]))
         b.emit("let %s ← pyFoldM %s %s (fun %s %s => do" % (accl, paren(it.lean), accl, accl, pat))
         b.take(sb)
         b.lines[-1] += ")"
@@ -1090,6 +1181,13 @@ class Fn2(Fn):
     def body_updates_self(self, body):
         for st in body:
             for n in ast.walk(st):
+                if isinstance(n, (ast.Assign, ast.Delete, ast.AnnAssign)):
+                    tg = n.targets if not isinstance(n, ast.AnnAssign) else [n.target]
+                    for t in tg:
+                        t0 = t.value if isinstance(t, ast.Subscript) else t
+                        if isinstance(t0, ast.Attribute) and isinstance(t0.value, ast.Name) and t0.value.id == self.selfname \
+                                and FIELDS.get(self.cls, {}).get(t0.attr, ("",))[0] == "hfield":
+                            return True
                 if isinstance(n, ast.Call) and isinstance(n.func, ast.Attribute) and isinstance(n.func.value, ast.Name) \
                         and n.func.value.id == self.selfname:
                     q = "%s.%s" % (self.cls, n.func.attr)
@@ -1139,6 +1237,10 @@ class Fn3(Fn2):
             return E(x.lean, want)
         if x.ty == "skey" and want == ("tuple", "str", ("opt", "ver")):
             return E(x.lean, want)
+        if x.ty == "sref" and want == "skey":
+            return E("(%s.name, some %s.ver)" % (paren(x.lean), paren(x.lean)), want)
+        if x.ty == "str" and want == "skey":
+            return E("(%s, none)" % x.lean, want)
         if isinstance(want, tuple) and want[0] == "opt" and same(x.ty, want[1]):
             return E("(some %s)" % paren(x.lean), want)
         if isinstance(want, tuple) and isinstance(x.ty, tuple) and {want[0], x.ty[0]} == {"list", "set"} and same(x.ty[1], want[1]):
@@ -1882,6 +1984,9 @@ class Fn4(Fn3):
             return E(x.lean, "val")
         if t == "plugininfo" and attr == "ref" and not a:
             return E("%s.ref" % paren(x.lean), "sref")
+        if t == "node_or_empty" and attr == "values" and not a:
+            b.state()
+            return E("(match %s with | some g => groupValues s.raw g | none => [])" % x.lean, ("list", "node"))
         if t == "group" or t == "node":
             if attr in ("keys", "values", "items") and not a:
                 b.state()
@@ -1911,6 +2016,20 @@ class Fn4(Fn3):
         if cls == "TOCPackages" and attr == "keys" and not e.args:
             b.state()
             return E("(s.c.pkginfos.map (·.1))", ("list", "pkg"))
+        if cls == "MetadorMeta" and attr == "keys" and not e.args:
+            return E("(self_.objs.map (·.1))", ("list", "str"))
+        if cls == "MetadorMeta" and attr == "values" and not e.args:
+            return E("(self_.objs.map (·.2))", ("list", "stored"))  # (+ _guard_acl: property C15's)
+        if cls == "MetadorMeta" and attr == "_parse_obj" and len(e.args) == 2:
+            c = self.ex(b, e.args[0])
+            v = self.ex(b, e.args[1])
+            if c.ty != "sinfo":
+                raise self.err("_parse_obj with a %s as class" % (c.ty,), e)
+            if v.ty == "value":
+                return E(b.bind("parseValue %s" % paren(v.lean)), "tok")
+            if v.ty == "val":
+                return E(b.bind("parseStored %s %s" % (paren(c.lean), paren(v.lean))), "parsed")
+            raise self.err("_parse_obj of a %s" % (v.ty,), e)
         return None
 
     def raw_method(self, b, e, attr, want):
@@ -2073,7 +2192,10 @@ ORDER = [
     "TOCSchemas._update_parents_children", "TOCSchemas._register", "TOCSchemas._unregister", "TOCSchemas.__init__",
     "TOCSchemas.parent_path", "TOCSchemas.versions", "TOCSchemas.children",
     "TOCLinks.__init__", "TOCLinks.resolve", "TOCLinks.update", "TOCLinks.register", "TOCLinks.unregister",
-    "TOCLinks.find_broken", "TOCLinks.find_missing", "TOCLinks.repair_missing",
+    "TOCLinks.find_missing", "TOCLinks.repair_missing",
+    "MetadorMeta._require_schema", "MetadorMeta._get_raw", "MetadorMeta._set_raw", "MetadorMeta._del_raw",
+    "MetadorMeta._destroy", "MetadorMeta.__init__", "MetadorMeta.query", "MetadorMeta.__contains__", "MetadorMeta.get",
+    "MetadorMeta.__setitem__", "MetadorMeta.__delitem__",
 ]
 
 
@@ -2092,7 +2214,7 @@ def stub(qual, why):
         ps.append("(e : Env)")
     for c in sp.callees:
         ps.append("(%s : %s)" % (callee_param(c), SPECS[c].fn_type()))
-    if sp.selfty:
+    if sp.selfty and not sp.ctor:
         ps.append("(self_ : %s)" % lty(sp.selfty))
     for i, t in enumerate(sp.params):
         if t is not None:
